@@ -141,7 +141,11 @@ func (e *Engine) Solve(o *Obligation, solvers []string, timeout time.Duration, d
 				kind = "cvc5"
 			}
 			if _, ok := qs[kind]; !ok {
-				q, err := e.BuildQuery(facts, o.Goal, kind, o.LenBound, o.Fuel)
+				home := ""
+				if i := strings.Index(o.ctx.fnKey, "."); i > 0 {
+					home = o.ctx.fnKey[:i]
+				}
+				q, err := e.BuildQuery(facts, o.Goal, kind, o.LenBound, o.Fuel, home)
 				if err != nil {
 					return nil, err
 				}
